@@ -150,12 +150,18 @@ class Counter:
         me = self
 
         def wrap(key, f):
-            def counted(ct, data, offset, lendian, oobFDs):
+            def counted(*args, **kwargs):        # however the tree calls its readers (positional today)
                 me.n += 1
                 if me.budget is not None and me.n > me.budget:
                     raise BudgetExceeded()
-                w = 1 + len(ct)
+                w = 1
                 try:
+                    ct, data, offset, lendian = (list(args) + [None] * 4)[:4]
+                    ct = kwargs.get('ct', ct)
+                    data = kwargs.get('data', data)
+                    offset = kwargs.get('offset', offset)
+                    lendian = kwargs.get('lendian', lendian)
+                    w += len(ct)
                     n = len(data)
                     if key in 'so' and 0 <= offset and offset + 4 <= n:
                         slen = struct.unpack_from('<I' if lendian else '>I', data, offset)[0]
@@ -165,13 +171,13 @@ class Counter:
                 except Exception:
                     pass
                 me.work += w
-                return f(ct, data, offset, lendian, oobFDs)
+                return f(*args, **kwargs)
             return counted
         for k, f in self.saved.items():
             self.marshal.unmarshallers[k] = wrap(k, f)
         orig = self.saved_gen = self.marshal.genCompleteTypes
 
-        def gen(sig):
+        def gen(sig, *args, **kwargs):        # extra (private) parameters of the tree's generator are passed through
             if me.in_gen:                 # the nested generator of a leading 'a': its cost is part of the piece's
                 # correct code creates one per leading 'a' of the piece being produced, and every piece produced is
                 # followed by an invocation: anything beyond (invocations + 2) * (L + 1) is a splitter running away
@@ -179,10 +185,10 @@ class Counter:
                 if me.budget is not None and me.nested > (me.n + 2) * (me.L + 1):
                     me.reason = 'splitter'
                     raise BudgetExceeded()
-                return orig(sig)
+                return orig(sig, *args, **kwargs)
 
             def pieces():
-                it = orig(sig)
+                it = orig(sig, *args, **kwargs)
                 pos = 0
                 while True:
                     me.in_gen = True
@@ -812,9 +818,14 @@ def length_fields(marshal, raw, fn):
     width = {'s': 4, 'o': 4, 'a': 4, 'g': 1, 'v': 1}      # by DBus type code (the wire format), not by function object
 
     def wrap(f, w):
-        def rec(ct, data, offset, lendian, oobFDs):
-            found.append((len(raw) - len(data) + offset, w))
-            return f(ct, data, offset, lendian, oobFDs)
+        def rec(*args, **kwargs):
+            try:
+                data = kwargs.get('data', args[1] if len(args) > 1 else None)
+                offset = kwargs.get('offset', args[2] if len(args) > 2 else None)
+                found.append((len(raw) - len(data) + offset, w))
+            except Exception:
+                pass
+            return f(*args, **kwargs)
         return rec
     try:
         for k, f in saved.items():
